@@ -165,3 +165,45 @@ def replay_protocol(vc, unit):
     res = dec(out["result"])
     rec["native_result"] = res
     return bool(res.get("violates")), rec
+
+
+def replay_c16(vc, unit):
+    from pyvc import units
+    from pyvc.native import dec
+    w = vc.get("witness") or {}
+    if "family" not in w:
+        return None
+    clause = vc["name"].rsplit("/", 1)[-1]
+    task = {"op": "func", "module": "contracts.inverter_native", "func": "replay_c16",
+            "kwargs": {"family": w["family"], "sid": w.get("id"), "check": clause}}
+    out = units.native_batch([task])[0]
+    rec = {"kind": "script", "native_task": task, "native_result": out}
+    if not out["ok"]:
+        return None, rec
+    res = dec(out["result"])
+    rec["native_result"] = res
+    return bool(res.get("violates")), rec
+
+
+def replay_c15(vc, unit):
+    from pyvc import units
+    from pyvc.native import dec
+    w = vc.get("witness") or {}
+    clause = vc["name"].rsplit("/", 1)[-1]
+    if vc["name"].startswith("window:"):
+        return replay_window(vc, unit)
+    if "state_index" in w:
+        task = {"op": "func", "module": "contracts.inverter_native", "func": "replay_runtime",
+                "kwargs": {"family": w["family"], "state": w["state_index"], "script": w.get("script", []),
+                           "check": clause}}
+    elif "method" in w:
+        return replay_api(vc, unit)
+    else:
+        return None
+    out = units.native_batch([task])[0]
+    rec = {"kind": "script", "native_task": task, "native_result": out}
+    if not out["ok"]:
+        return None, rec
+    res = dec(out["result"])
+    rec["native_result"] = res
+    return bool(res.get("violates")), rec
